@@ -33,7 +33,7 @@ DICT = ("go G OW\nforward F AO R W ER D\nbackward B AE K W ER D\nten T EH N\nmet
         "one W AH N\ntwo T UW\n")
 FORMATS = ["fsg", "dict", "config", "align", "addword", "cmn", "jsgf"]
 _CASE = re.compile(r'^<<"CASE", "(.*)">>$')
-TIMEOUT_S = 10
+TIMEOUT_S = 20
 
 
 # ------------------------------------------------------------------------------------------------ derivation
